@@ -75,6 +75,10 @@ def _b(cap, unwind=7, cap_s=600, **defs):
 
 def _rec(name, extra_tus, desc, shapes, vs_cap, hid=None, shape=None, cap_q=600, cap_t=3000, **kw):
     kw.setdefault('cbmc_flags', _BYTEWISE + _pool(vs_cap))
+    # every loop of the reader is driven by a length read from the stream; stream positions are concrete, so an unwinding
+    # failure means a length was read from the wrong place (misaligned read after a dropped/extra field): a violation,
+    # which the native replay then confirms by a field mismatch
+    kw.setdefault('nonterm_is_violation', True)
     dq = dict(LMAX=2, PAT_MASK=_QUICK_PATS)
     dt = dict(LMAX=2)
     if shape is not None:
@@ -106,6 +110,38 @@ HARNESSES += [
       'and a symbolic token count is unaffordable), _array_size symbolic for array types and the constructor default otherwise',
       cap, hid='c12_rec_type_%03x' % sh, shape=sh)
  for sh, what, cap in _TYPE_SHAPES
+]
+
+HARNESSES += [
+ dict(_rec('element', ['interrogateElement.cxx'], 'InterrogateElement::input on files of minor format 3.0, 3.1, 3.2, 3.3 written by a reference writer kept in the harness',
+      '(minor version, alt names) in {(0,0), (1,1), (2,0), (2,1), (3,0), (3,1)}; _file_minor_version set as load_latest does', 48,
+      hid='c12_element_gates'), entry='harness_c12_element_gates',
+      oracle='fields present in that minor format equal the values written, fields absent keep the constructor default 0, stream not '
+             'failed, following integer intact; for 3.3 the real output() produces exactly the reference writer\'s tokens'),
+]
+
+_RESERVE = '_ZNSt6vectorINSt7__cxx1112basic_stringIcSt11char_traitsIcESaIcEEESaIS5_EE7reserveEm'
+
+def _trunc(hid, lo, hi, what, monitor):
+    h = _rec('manifest', ['interrogateManifest.cxx'],
+             'InterrogateManifest::input (through InterrogateComponent::input, idf_input_string) on proper prefixes of a valid record: ' + what,
+             '0 or 1 alt name; concrete contents (single-digit integers, letters: token index = byte index in the native replay); '
+             'symbolic cut position in %d..%d tokens, always removing at least the integer that follows the record' % (lo, hi - 1), 32, hid=hid)
+    h['entry'] = 'harness_c12_truncate'
+    h['oracle'] = ('no crash (uncaught exception, abort, memory-safety violation); the stream is in fail state after the record and the '
+                   'following integer have been read, so that read_new() returns false; uninitialised locals are arbitrary values'
+                   + ('; vector<string>::reserve is replaced by a monitor asserting that the requested count is <= 4' if monitor else ''))
+    for t, pm in (('quick', 0b00010), ('thorough', 0b01110)):
+        h['bounds'][t]['defs'].update(PAT_MASK=pm, CUT_LO=lo, CUT_HI=hi)
+        if monitor:
+            h['bounds'][t]['defs']['MONITOR_RESERVE'] = 1
+    if monitor:
+        h['cut'] = [_RESERVE]
+    return h
+
+HARNESSES += [
+ _trunc('c12_truncate_head', 0, 6, 'cut inside the name or before the alt-name count', True),
+ _trunc('c12_truncate_tail', 6, 32, 'cut after the alt-name count', False),
 ]
 
 PROPERTY_INFO = {'C12': {'level': 'model_checking',
